@@ -1919,6 +1919,8 @@ def run_ldap(items, run, mon):
             import ldap3
             a_ = _lcls(cls)(None)
             run.tags.add('ldap-update:' + cls)
+            # F19 (known finding): a keyed list shrinks and the dropped row carried a field no remaining row names
+            uclause = 'ldap-update-keyed-row-orphan' if _upd_orphans(cls, it['o'], it['o2']) else 'ldap-update'
             try:
                 stored = _ldap._remove_empty(a_.to_entry(copy.deepcopy(it['o'])))      # pylint: disable=protected-access
                 stored0 = copy.deepcopy(stored)
@@ -1929,7 +1931,7 @@ def run_ldap(items, run, mon):
                 _lcls(cls)(adm_).update(ident_, copy.deepcopy(it['o2']))
                 back = a_.from_entry(copy.deepcopy(stored))
             except Exception as exc:  # pylint: disable=broad-except
-                mon.hit('ldap-update', LCLS[cls] + '.update', 'update of %r to %r raised %r' % (it['o'], it['o2'], exc))
+                mon.hit(uclause, LCLS[cls] + '.update', 'update of %r to %r raised %r' % (it['o'], it['o2'], exc))
                 continue
             # ---- per-call tie: what the connection saw against `diffEntries` / `adminUpdate` of the model, and
             # LdapObject.update as `to_entry` followed by it
@@ -1958,7 +1960,7 @@ def run_ldap(items, run, mon):
             if want is not None and canon(_unordered0(want)) != canon(_unordered0(back)):
                 diff = sorted(k_ for k_ in set(want) | set(back)
                               if canon(_unordered0(want.get(k_))) != canon(_unordered0(back.get(k_))))
-                mon.hit('ldap-update', LCLS[cls] + '.update',
+                mon.hit(uclause, LCLS[cls] + '.update',
                         'created %r, updated to %r: fields %r read %r, the update should leave %r' % (
                             it['o'], it['o2'], diff, {k_: back.get(k_) for k_ in diff}, {k_: want.get(k_) for k_ in diff}))
                 continue
@@ -1972,9 +1974,17 @@ def run_ldap(items, run, mon):
                 if isinstance(x, list):
                     return [_unordered(v_) for v_ in x]
                 return x
+            rows_bad = ['%s: %d rows written, %d read' % (k_, len(v_), len(back.get(k_) or []))
+                        for k_, v_ in it['o2'].items()
+                        if isinstance(v_, list) and v_ and all(isinstance(x_, dict) for x_ in v_)
+                        and len(back.get(k_) or []) != len(v_)]
+            if rows_bad:
+                mon.hit(uclause, LCLS[cls] + '.update',
+                        'created %r, updated to %r, read %r: %s' % (it['o'], it['o2'], back, '; '.join(rows_bad)))
+                continue
             lost = _subsumed(_unordered(it['o2']), _unordered(back))
             if lost:
-                mon.hit('ldap-update', LCLS[cls] + '.update',
+                mon.hit(uclause, LCLS[cls] + '.update',
                         'created %r, updated to %r, read %r: %s' % (it['o'], it['o2'], back, lost))
             else:
                 mon.nt += 1
